@@ -115,6 +115,10 @@ def gen_soils(rnd, thorough):
         {"reader": "csv", "hs": [(3, 1, "0.3", 0), (20, 3, None, 0)], "why": "F17: measured density of an organic topsoil"},
         {"reader": "csv", "hs": [(3, 2, "1.41", 0), (20, 4, None, 20)], "why": "groundwater inside the profile (soil file level 8 dm)", "gw": "08"},
         {"reader": "csv", "hs": [(3, 2, "1.38", 0), (11, 4, None, 0), (20, 5, None, 10)], "why": "texture-table route (no FC/WP/PV columns)", "table": True},
+        {"reader": "csv", "hs": [(3, 2, None, 0), (20, 3, None, 0)], "why": "drain at 8 dm inside the profile, share as a fraction", "drain": ("08", "0.8")},
+        {"reader": "csv", "hs": [(3, 2, None, 0), (20, 3, None, 0)], "why": "drain at 8 dm inside the profile, share in percent", "drain": ("08", "80")},
+        {"reader": "txt", "hs": [(3, 2, None, 0), (20, 3, None, 0)], "why": "drain at 8 dm inside the profile, share as a fraction", "drain": ("08", "0.8")},
+        {"reader": "txt", "hs": [(3, 2, None, 0), (20, 3, None, 0)], "why": "drain at 8 dm inside the profile, share in percent", "drain": ("08", " 80")},
         {"reader": "txt", "hs": [(3, 1, None, 0), (12, 3, None, 0), (20, 5, None, 0)], "why": "texture-table route (no FC/WP/PV columns)", "table": True},
     ]
     for k in range(40 if thorough else 3):
@@ -146,15 +150,17 @@ def write_soils(ex, soils):
                 if so["reader"] == "csv":
                     # SID,C_org,Texture,LayerDepth,BulkDensityClass,BulkDensity,Stone,C/N,C/S,RootDepth,NumberHorizon,FC,WP,PV,Sand,Silt,Clay,DrainageDepth,Drainage%,GW
                     fwp = (",,", ",,") if so.get("table") else ("20,09,40", "18,09,40")   # no FC/WP/PV columns: texture-table route
+                    dr = so.get("drain", ("20", "00"))                                      # drainage depth (dm), share (fraction or percent)
                     if k == 0:
-                        fc.write("%s,0.70,SL3,%02d,%d,%s,%02d,10,00,05,%02d,%s,78,13,09,20,00,%s\n" % (so["sid"], u, c, m or "", st, nh, fwp[0], so.get("gw", "99")))
+                        fc.write("%s,0.70,SL3,%02d,%d,%s,%02d,10,00,05,%02d,%s,78,13,09,%s,%s,%s\n" % (so["sid"], u, c, m or "", st, nh, fwp[0], dr[0], dr[1], so.get("gw", "99")))
                     else:
                         fc.write("%s,0.31,SL3,%02d,%d,%s,%02d,10,00,,,%s,77,13,10,20,00,   \n" % (so["sid"], u, c, m or "", st, fwp[1]))
                 else:
                     # fixed columns: [0:3] SID [4:8] Corg [9:12] texture [13:15] depth [16:17] class [18:20] stone ... [32:34] root depth [35:37] horizons
                     f1, f2 = ("        ", "        ") if so.get("table") else ("31 16 45", "29 19 45")
+                    dr = so.get("drain", ("20", "00"))
                     if k == 0:
-                        ft.write("%s 1.14 ULS %02d %d %02d 10      00 05 %02d   %s 26 63 11 00  20   00 99 01\n" % (so["sid"], u, c, st, nh, f1))
+                        ft.write("%s 1.14 ULS %02d %d %02d 10      00 05 %02d   %s 26 63 11 00  %s   %-3s%s 01\n" % (so["sid"], u, c, st, nh, f1, dr[0], dr[1], "99"))
                     else:
                         ft.write("%s 0.40 ULS %02d %d %02d 10      00         %s 26 63 11 00  20   00       \n" % (so["sid"], u, c, st, f2))
 
@@ -267,7 +273,7 @@ def plan_runs(ctx):
     mark = os.path.join(ex, ".c19.json")
     if os.path.exists(mark):
         return ex, json.load(open(mark))
-    nl, endy = (8, 2000) if ctx.thorough else (3, 1984)
+    nl, endy = (8, 2000) if ctx.thorough else (3, 1982)
     plan = []
     csv_weather = lambda ln: " @weather-ref=csv" if re.search(r"project=(ex1|zuc|bulk|ex3) ", ln) and "fcode=" in ln else ""
     for i, (ln, fmt) in enumerate(TRACE[:nl]):
@@ -281,7 +287,7 @@ def plan_runs(ctx):
             ("zuc", "DE", "radgap", "109_121", "soilId=001 plotNr=10002"), ("ex1", "EN", "sunonly", "109_120", "soilId=160 plotNr=10002"),
             ("bulk", "EN", "colrev", "109_120", "soilId=002 plotNr=10001")]
     for k, (proj, fmt, folder, fcode, rest) in enumerate(scen if ctx.thorough else scen[:5]):
-        end = ("1231%d" if fmt == "EN" else "3112%d") % (1995 if ctx.thorough else 1982)
+        end = ("1231%d" if fmt == "EN" else "3112%d") % (1995 if ctx.thorough else 1981)
         plan.append({"line": "project=%s WeatherFolder=%s fcode=%s %s Altitude=73 Latitude=52.6732 poligonID=29872 EndDate=%s resultfolder=R/c19_%d "
                              "@every=%d @weather-ref=csv" % (proj, folder, fcode, rest, end, len(plan), 60 if ctx.thorough else 24),
                      "soil": None, "weather": folder})
@@ -291,7 +297,17 @@ def plan_runs(ctx):
     open(pz, "w").write(re.sub(r"(?m)^(10001\s+\S+\s+\S+\s+)\S+(\s+)\S+", r"\g<1>7\g<2>13", ptxt))
     e1 = "project=ex1 WeatherFolder=historical soilId=075 fcode=109_120 plotNr=10001 Altitude=73 Latitude=52.6732 poligonID=29872"
     e1b = "project=ex1 WeatherFolder=historical soilId=160 fcode=109_121 plotNr=10002 Altitude=73 Latitude=52.6728 poligonID=29873"
+    # a real precipitation correction table in every weather folder (only read with CorrectionPrecipitation=1)
+    for folder in ("historical", "MUN"):
+        if os.path.isdir(os.path.join(ex, "weather", folder)):
+            open(os.path.join(ex, "weather", folder, "preco.txt"), "w").write(
+                "Mo corr\n" + "".join("%02d %4.2f\n" % (m_, f_) for m_, f_ in enumerate([1.24, 1.22, 1.2, 1.14, 1.1, 1.08, 1.08, 1.08, 1.1, 1.12, 1.18, 1.22], 1)))
     sweep = [(e1 + " AutoIrrigation=1", "EN", 1981, True, "AutoIrrigation=1"),
+             (e1 + " CorrectionPrecipitation=1", "EN", 1981, True, "CorrectionPrecipitation=1 with preco.txt, csv weather"),
+             ("project=rue WeatherFolder=historical fcode=109_121 plotNr=10002 soilId=001 Altitude=46 Latitude=52.6431 poligonID=30169 CorrectionPrecipitation=1", "DE", 1981, False,
+              "CorrectionPrecipitation=1 with preco.txt, .w6d weather"),
+             ("project=MUN WeatherFolder=MUN soilId=001 fcode=NEU plotNr=00001 Altitude=55 Latitude=54.00 poligonID=MUN parameter=./parameter StartYear=2009 CorrectionPrecipitation=1", "DE0531", 2010, False,
+              "CorrectionPrecipitation=1 with preco.txt, one weather file per year"),
              ("project=bulk WeatherFolder=historical soilId=002 fcode=109_120 plotNr=10001 Altitude=73 Latitude=52.6732 poligonID=29872 AutoIrrigation=0", "EN", 1981, True, "AutoIrrigation=0"),
              (e1 + " InitSelection=1", "EN", 1981, True, "InitSelection=1"), (e1 + " InitSelection=2", "EN", 1981, True, "InitSelection=2"),
              ("project=rue WeatherFolder=historical fcode=109_121 plotNr=10002 soilId=001 Altitude=46 Latitude=52.6431 poligonID=30169", "DE", 1981, False, "WeatherFileFormat 2 (.w6d)"),
